@@ -47,6 +47,7 @@ pub const FRAGS: &[&str] = &[
     "<script>", "</script>", "</SCRIPT>", "</script >", "<style>", "</style>", "<xmp>", "</xmp>",
     "<iframe>", "</iframe>", "<noembed>", "</noembed>", "<noframes>", "</noframes>",
     "<noscript>", "</noscript>", "<plaintext>", "</plaintext>", "<script/>", "<title/>",
+    "<!DOCTYPE html PUBLIC \"\" \"\">", "<!DOCTYPE html SYSTEM \"\">", "<a href>", "<a href=\"\" id=''>", "<!---->x",
     "<textarea x=>", "<title a=>", "<script a= >", "<style x=\"\">", "<xmp a=b/>", "<b>bold</b>", "<i id=fake>",
     // script data escapes
     "<!--", "-->", "<script", "</script", "<!--<script>", "<!-- </script>", "--!>", "<!-", "<!--x-->",
